@@ -44,7 +44,17 @@ def random_structure_spec(rng, max_atoms=5):
         elif r < 0.8:
             at["Uiso"] = round(rng.uniform(0.001, 0.05), 5)
         atoms.append(at)
-    return {"lattice": lat, "atoms": atoms}
+    spec = {"lattice": lat, "atoms": atoms}
+    if len(atoms) > 1 and rng.random() < 0.12:
+        # the caller reuses ONE ndarray object for the coordinates (and one for the tensor) of every atom
+        spec["shared_arrays"] = True
+        for at in atoms[1:]:
+            at["xyz"] = list(atoms[0]["xyz"])
+            for k in ("U", "Uiso"):
+                at.pop(k, None)
+                if k in atoms[0]:
+                    at[k] = atoms[0][k]
+    return spec
 
 
 def build_structure(spec):
@@ -60,6 +70,10 @@ def build_structure(spec):
         S.append(a, copy=False)
         for k, v in at["extra"].items():
             setattr(S[-1], k, v)
+    if spec.get("shared_arrays") and len(S) > 1:
+        for a in S[1:]:
+            a.xyz = S[0].xyz
+            a._U = S[0]._U
     return S
 
 
@@ -272,6 +286,37 @@ def check_property(S, before, mno, status, res):
     return bad
 
 
+def independence_failures(S, N):
+    """Editing the result must not change the input and vice versa (values and objects).  MUTATES both structures."""
+    bad = []
+    if N is S:
+        return [("shares nothing", "the result is the input object")]
+    s_before = snapshot(S)
+    for g in N:
+        g.xyz += 0.123
+        g._U += 0.5
+        g.element = "Zz"
+        g.label = "edited"
+        g.occupancy = 0.123
+        g.tag = -7
+    N.lattice.setLatPar(a=N.lattice.a * 1.25, gamma=N.lattice.gamma - 1.0)
+    if not same_snapshot(s_before, snapshot(S)):
+        bad.append(("shares nothing", "editing the atoms/lattice of the result changed the input structure"))
+    n_before = snapshot(N)
+    for a in S:
+        a.xyz -= 0.2
+        a._U -= 0.3
+        a.element = "Yy"
+        a.occupancy = 0.77
+    S.lattice.setLatPar(b=S.lattice.b * 0.8, alpha=S.lattice.alpha + 0.5)
+    if not same_snapshot(n_before, snapshot(N)):
+        bad.append(("shares nothing", "editing the atoms/lattice of the input changed the result"))
+    objs = [id(g.xyz) for g in N] + [id(g._U) for g in N]
+    if len(set(objs)) != len(objs):
+        bad.append(("shares nothing", "two atoms of the result share a coordinate or tensor array"))
+    return bad
+
+
 def check_two_step(S, f1, f2):
     from diffpy.structure.expansion import supercell
     bad = []
@@ -351,6 +396,11 @@ def run_cases(ctx, ncases, with_model):
             hb = lattice_hypotheses(S.lattice, *ints)
             if hb:
                 hyp_bad.append("%s x %s: %s" % (json.dumps(spec["lattice"])[:150], ints, hb))
+        if status == "ok":
+            S2 = build_structure(spec)
+            st2, res2 = call_supercell(S2, mno_value(mno))
+            if st2 == "ok":
+                fails += independence_failures(S2, res2)
         nviol += report(ctx, case, fails)
         cases.append((case, S, status, res))
         lines.append(coq_case(spec, S.lattice, mno, expected_list(status, res)))
